@@ -110,25 +110,20 @@ func (tx *Tx) Commit() error {
 }
 
 func (tx *Tx) beforeCommit() {
-	if len(txHooks) != 0 {
-		hl.RLock()
-		defer hl.RUnlock()
+	hl.RLock()
+	defer hl.RUnlock()
 
-		for i := range txHooks {
-			txHooks[i].BeforeCommit(tx)
-		}
+	for i := range txHooks {
+		txHooks[i].BeforeCommit(tx)
 	}
 }
 
 func (tx *Tx) Rollback() error {
-	if len(txHooks) != 0 {
-		hl.RLock()
-		defer hl.RUnlock()
-
-		for i := range txHooks {
-			txHooks[i].BeforeRollback(tx)
-		}
+	hl.RLock()
+	for i := range txHooks {
+		txHooks[i].BeforeRollback(tx)
 	}
+	hl.RUnlock()
 
 	// in XA mode there is no local transaction behind the proxy (the branch is ended by XA statements)
 	if tx.target == nil {
